@@ -20,6 +20,10 @@ Round 5 (hunt): random_seed never swallows numpy's refusal of a seed (repair
 as the ensembles do (repair 3549835); no Set* method writes attributes of its
 arguments (SetNestedSolver no longer sets NP on the solver class; repair
 3fcd340).
+Round 6: Step checks termination before every step but the first (guard
+evaluated over monitor lengths); a replacement seed is reproducible across
+processes; re-decoration draws random numbers only for members outside the box
+(repair 7c43727).
 NOT decided: identity of trajectories, step-wise vs run-to-completion equality,
 process maps, hash randomisation of message strings.
 """
@@ -489,6 +493,12 @@ def random_seed_sets_both_global_sources(ctx):
             only_import = bool(names) and names <= {'ImportError', 'ModuleNotFoundError'}
             reseeds = any(np_seed(y) for st in h.body for y in ast.walk(st))
             raises = any(isinstance(y, ast.Raise) for st in h.body for y in ast.walk(st))
+            # a replacement seed must be the same in every process: hash() of str / bytes is salted per process, id() and clocks are not reproducible at all
+            salted = [y for st in h.body for y in ast.walk(st) if isinstance(y, ast.Call) and np_seed(y)
+                      for z in ast.walk(y) if isinstance(z, ast.Call) and callee_text(z).split('.')[-1] in ('hash', 'id', 'time', 'urandom', 'getpid', 'time_ns', 'perf_counter')]
+            ctx.check(not salted, 'random_seed#replacement@%s' % (unparse(h.type) if h.type is not None else 'bare'), 'the replacement seed is reproducible across processes',
+                      'random_seed derives the replacement seed for numpy with hash() / id() / a clock: hash() of a str or bytes seed is salted per process (PYTHONHASHSEED), so the same seed gives different '
+                      'sampled start points in two runs of the same script', f, h)
             ctx.check(only_import or reseeds or raises, 'random_seed#handler@%s' % (unparse(h.type) if h.type is not None else 'bare'), 'a refused numpy seed is replaced or reported',
                       'random_seed swallows the error numpy.random.seed raises for a seed it does not accept (negative, >= 2**32, float, str, bytes - all legal for random.seed) and returns normally: '
                       'python\'s stream is seeded, numpy\'s is not, and two runs with the same seed draw different start points', f, h)
@@ -576,3 +586,60 @@ def configuration_is_kept_on_the_solver_not_on_its_arguments(ctx):
     for m in methods:
         if id(m) not in flagged:
             ctx.ok('%s#arguments-untouched' % m.qualname, 'stores only into the solver', m, m.node)
+
+
+@rule('C07.p', min_instances=1)
+def step_checks_termination_before_every_step_but_the_first(ctx):
+    """Step tests the termination condition before stepping whenever the initial evaluation has been made - i.e. whenever the step monitor is non-empty, also when it holds the initial record only: a solver that met its stop condition at generation 0 must not take an iteration when Step is called again (in step mode the ensemble calls Step on every member each round; run-to-completion never steps such a member - the two modes would differ). The guard of the pre-step check is evaluated for monitor lengths 0..3 with `generations` read as max(0, len-1): it has to be true exactly for len >= 1"""
+    f = ctx.func(AS + '.Step')
+    sn = selfname_of(f)
+    pre = None
+    steps = calls_where(f.node, lambda c: self_call(c, '_Step', sn), include_lambda=False)
+    ctx.need(steps, 'Step: no _Step call')
+    for n in walk_no_nested(f.node):
+        if isinstance(n, ast.If) and n.lineno < steps[0].lineno and not any(x is steps[0] for x in ast.walk(n)) and \
+                calls_where(ast.Module(body=n.body, type_ignores=[]), lambda c: self_call(c, 'Terminated', sn), include_lambda=False):
+            pre = n
+            break
+    ctx.need(pre is not None, 'Step: the pre-step termination check is not found')
+    src = unparse(pre.test)
+    expr = src.replace('len(%s._stepmon)' % sn, 'L').replace('%s.generations' % sn, 'max(0, L - 1)')
+    try:
+        vals = [bool(eval(compile(ast.parse(expr, mode='eval'), '<guard>', 'eval'), {'__builtins__': {}}, {'L': L, 'max': max, 'len': len, 'bool': bool})) for L in range(4)]
+    except Exception as ex:
+        raise AnalysisError('Step: cannot evaluate the guard of the pre-step check (%s): %s' % (src, ex))
+    ctx.check(vals == [False, True, True, True], 'AbstractSolver.Step#pre-check-guard', 'termination is checked before stepping for every non-empty step monitor (guard: %s)' % src,
+              'Step skips the pre-step termination check under `%s` (true for monitor lengths %s): with only the initial record logged a solver that already stopped at generation 0 takes a further iteration '
+              'when stepped again - step-wise and run-to-completion ensembles then differ' % (src, [L for L, v in enumerate(vals) if v]), f, pre)
+
+
+@rule('C07.q', min_instances=1)
+def redecoration_draws_only_for_members_outside_the_box(ctx):
+    """the objective is re-decorated whenever a setting changes, a cost is handed to Step again, or a stopped solver is continued - none of which may change the trajectory of a run whose members all lie inside the strict ranges: _clipGuessWithinRangeBoundary(at=False) (called for every member on re-decoration) draws from the global random source only on paths that have established that some coordinate was clipped; an unconditional draw makes `Step(cost)` x n differ from `SetObjective(cost); Step()` x n for the same seed"""
+    f = ctx.func(AS + '._clipGuessWithinRangeBoundary')
+    x0 = f.args()[1]
+
+    def is_draw(n):
+        return isinstance(n, ast.Call) and callee_text(n).split('.')[0] in ('random', 'rng', 'numpy') and callee_text(n).split('.')[-1] in ('uniform', 'random', 'rand', 'randn', 'normal', 'choice', 'randint')
+    draws = [c for c in walk_no_nested(f.node) if is_draw(c)]
+    ctx.need(draws, '_clipGuessWithinRangeBoundary: no random draw found (how are out-of-box coordinates replaced?)')
+    paths = [p for p in enumerate_paths(f.node, relevant=lambda n: is_draw(n) or isinstance(n, ast.Return), unroll=(0, 1)) if p.exit != 'raise']
+    ctx.stats['paths_enumerated'] += len(paths)
+    bad = None
+    n = 0
+    for p in paths:
+        established = False
+        for e in p.events:
+            if e[0] == 'cond':
+                cmp_ = [c for c in ast.walk(e[1]) if isinstance(c, ast.Compare) and any(isinstance(x, ast.Name) and x.id == x0 for x in ast.walk(c))]
+                anyc = [c for c in ast.walk(e[1]) if isinstance(c, ast.Call) and isinstance(c.func, ast.Attribute) and c.func.attr in ('any', 'all')]
+                if cmp_ or anyc:
+                    established = True
+            elif e[0] in ('stmt', 'partial') and any(is_draw(c) for c in ast.walk(e[1])):
+                n += 1
+                if not established:
+                    bad = p
+    ctx.need(n >= 1, '_clipGuessWithinRangeBoundary: no path reaches the draw')
+    ctx.check(bad is None, '_clipGuessWithinRangeBoundary#draw-only-when-clipped', 'random numbers are drawn only after a test that some coordinate was clipped',
+              '_clipGuessWithinRangeBoundary draws from the global random source on a path that has not tested whether anything was clipped (%s): every re-decoration of the objective with strict ranges consumes '
+              'random numbers, so the trajectory depends on how often the objective was (re)registered' % (bad.describe(5) if bad else ''), f, draws[0])
